@@ -6,7 +6,6 @@ LEAN_MODULES = ["CifModel.Props.C01", "CifModel.Lemmas.CharsLink", "CifModel.Lem
 REQUIRED = [
     "CifModel.C01_lex_value", "CifModel.C01_lex_value_loop", "CifModel.C01_lex_value_after_ws", "CifModel.C01_lex_key",
     "CifModel.C01_lex_name", "CifModel.C01_lex_bracket", "CifModel.C01_lex_keyword",
-    "CifModel.C01_lex_value_bare_close_partial", "CifModel.C01_cex_semicolon_keyword_bracket",
     "CifModel.C01_lex_sep", "CifModel.C08_ws_lengthening_lexical", "CifModel.C01_lex_total",
     "CifModel.C01_line_numbers", "CifModel.C01_overlength_invariant", "CifModel.C01_overlength_iff",
     "CifModel.Model.Chars.classV2_link", "CifModel.Model.Chars.classV1_link", "CifModel.Model.Chars.classHigh_link",
@@ -37,10 +36,6 @@ ASSUMPTIONS = [
     "INIT_V2_SCANNER(s, NULL, NULL)",
 ]
 PARTIAL = [
-    "C01_lex_value_bare_close_partial: a whitespace-delimited value directly followed by ] or } is proved to end there for "
-    "every admissible string except those of the shape ;data_... / ;save_... (hypothesis semiKwFree) - for these the current "
-    "scanner swallows the bracket (open finding F33, counterexample theorem C01_cex_semicolon_keyword_bracket, full statement "
-    "C01_lex_value_bare_close_full)",
     "C01 is claimed for its LEXICAL LAYER only: C01_structure / C01_parse_render (productions, decode_text, value coercion, "
     "storage) belong to the integrated-parser group and are not part of this check yet",
 ]
